@@ -322,6 +322,32 @@ def body(ctx: C.Ctx, proof: C.ProofStatus) -> C.Result:
                 res.unsupported += 1
         if len(res.samples) < 3 and kind == "damaged" and r["errors"]:
             res.sample({"text": text[:300], "errors": r["errors"], "has_errors": r["has_errors"]})
+    # ---- pages given as BYTES: not every file is valid UTF-8 (Latin-1 / Windows-1252 text, a stray 0xff, a multi-byte character
+    #      cut in the middle): such a page is compiled like its ASCII remainder - flagged or not, never an internal exception
+    valid = [t for (t, k), (_, r) in zip(texts, outs) if k == "valid" and "exc" not in r and t.isascii()][:6]
+    byte_pages = []
+    for t in valid:
+        ls = t.split("\n")
+        j = next((i for i, l in enumerate(ls) if l[:2] in ("- ", "o ", "x ")), None)
+        if j is None:
+            continue
+        for ins in (b" caf\xe9", b" it\x92s", b" \xff", " na\u00efve".encode("utf-8")[:-1], " \u2028".encode("utf-8")):
+            bs = [l.encode("ascii") for l in ls]
+            bs[j] = bs[j] + ins
+            byte_pages.append(b"\n".join(bs))
+    for bp in byte_pages[: ctx.scale(15, 30)]:
+        rb = ZC.impl_compile(ctx.tmp / "bytes", "p.zo", bp, TODAY)
+        ra = ZC.impl_compile(ctx.tmp / "bytes", "q.zo", bytes(b for b in bp if b < 128).decode("ascii"), TODAY)
+        res.evaluations += 1
+        res.count("byte_level_pages")
+        case = {"bytes": repr(bp[:600]), "kind": "bytes"}
+        if "exc" in rb:
+            res.failures.append(C.Failure(f"a page that is not valid UTF-8 makes the compiler raise {rb['exc']}", case))
+            break
+        sig = lambda r: (bool(r["has_errors"]), [(n["kind"], n["zid"], n["body"]) for n in r["notes"]])
+        if "exc" not in ra and sig(rb) != sig(ra):
+            res.failures.append(C.Failure(f"a page with non-ASCII bytes compiles differently from its ASCII remainder: {str(sig(rb))[:200]} vs {str(sig(ra))[:200]}", case))
+            break
     # ---- refusal logic of db create / db reindex ----------------------------------------------
     global BROKEN_POOL
     BROKEN_POOL = [t for (t, k), (_, r) in zip(texts, outs) if "exc" not in r and r["errors"] and r["has_errors"]][:400]
@@ -340,7 +366,7 @@ def classify(f: C.Failure, entry: dict) -> bool:
 
 RULE = (
     "texts: valid generated pages, the same with 1-5 random character / token / line edits, truncations, missing header, missing trailing "
-    "newline, CRLF, random strings over the lexer alphabet, ASCII and Unicode, plus a corpus of formerly crashing inputs; per text: exception, "
+    "newline, CRLF, random strings over the lexer alphabet, ASCII and Unicode, pages given as bytes that are no valid UTF-8, plus a corpus of formerly crashing inputs; per text: exception, "
     "parser error count (spy on ErrorManager), has_errors, notes, and whether the listener reached an item; error-free texts also vs the Lean Zo "
     "model; then db create / -f / whitelist / reindex refusal scenarios with a broken page, incl. two pages changed before one reindex and a "
     "whitelisted page that is fixed, indexed and broken again, and broken pages whose names are suffixes / infixes of a whitelisted one; non-trivial = damaged or erroneous text"
